@@ -12,6 +12,9 @@ RULE = ("random binary tries over prefix-sharing keys of length 1..4 bytes; for 
         "a refused get_branch, a forged branch rejected and a witness for a proper prefix")
 
 
+PARTIAL_BAD = []      # violations found while priming with partial databases (reported by check)
+
+
 def keccak(x):
     from eth_hash.auto import keccak as k
     return k(x)
@@ -106,6 +109,13 @@ def gen_ops(rng, writes, m, tier):
             # the same functions on a PARTIAL database first (just this branch's nodes: the root is there, most descendants are
             # not): whatever they return or raise there, the later calls on the complete database must not be affected by it
             partial = {keccak(n): n for n in br}
+            try:
+                got_partial = [bytes(x) for x in BR.get_trie_nodes(partial, root)]
+                if sorted(set(got_partial)) != sorted(set(reachable_nodes(partial, root))):
+                    PARTIAL_BAD.append(f"get_trie_nodes on a partial database (the nodes of one branch, {len(partial)} entries) returned "
+                                       f"{len(set(got_partial))} of the {len(set(reachable_nodes(partial, root)))} nodes reachable in it")
+            except Exception as e:
+                PARTIAL_BAD.append(f"get_trie_nodes on a partial database raised {type(e).__name__}")
             for f in (lambda: list(BR.get_trie_nodes(partial, root)), lambda: list(BR.get_witness_for_key_prefix(partial, root, k[:1])),
                       lambda: BR.check_if_branch_exist(partial, root, k[:1]), lambda: list(BR.get_branch(partial, root, k + b"\x00"))):
                 try:
@@ -215,7 +225,10 @@ def check(tier, seed):
     cases, outs_list = [], []
     for _ in range(n):
         writes, m = build_case(rng, tier)
+        del PARTIAL_BAD[:]
         ops, meta, root = gen_ops(rng, writes, m, tier)
+        if PARTIAL_BAD:
+            R.spec_violations.append((PARTIAL_BAD[0], {"ops": [o for o in ops if o[0] in ("set", "delete", "delete_subtrie")], "partial_database": True}))
         outs, t = BX.run_history(ops)
         R.evaluations += sum(1 for x in meta if x)
         bad, stats = oracle(ops, meta, outs, m, t, root)
